@@ -5,7 +5,12 @@
 //   * the full candidate list of the first segment through a session (set_input), read from the menu,
 //   * for the table-style schema the prism's answers (GetValue / ExpandSearch) LookupWords works from.
 // usage: c07_harness <workdir> <jobfile>
-// job lines:  schema <id> <script|table> <completion 0|1> <strict 0|1> <delimiters hex>
+//        c07_harness --poet <jobfile>      the sentence maker alone: every job line
+//             poet <total> <start:end:entries>...    entries = `-` or `;`-separated  texthex/weight double bits/code ids (dots)
+//        builds the WordGraph (entries with these texts, weights, codes) and calls the REAL Poet::MakeSentence with
+//        CompareWeight and with LeftAssociateCompare (no grammar component is registered: DynamicProgramming strategy);
+//        output  poet cw <res> la <res>,  res = none | weight bits|texthex|code ids|word lengths|end/texthex/entry weight bits;...
+// job lines:  schema <id> <script|table> <completion 0|1> <strict 0|1> <delimiters hex> [<word completion 0|1>, default = completion]
 //             in <hex>
 // output:     schema <id> <kind> <loaded 0|1> / nsyl / syl / e (raw table walk, as c06_harness) / per input:
 //             in <hex> / g <interp> <inputlen> <edge starts> <last vertex type> / gi <start> <syll> <end> <type> <cred bits>
@@ -30,6 +35,8 @@
 #include <rime/dict/prism.h>
 #include <rime/dict/table.h>
 #include <rime/gear/translator_commons.h>
+#include <rime/gear/poet.h>
+#include <rime/dict/vocabulary.h>
 
 using namespace vh;
 using namespace rime;
@@ -91,7 +98,83 @@ static std::string spell_list(Prism* p, int value) {
   return o.empty() ? "-" : o;
 }
 
+template <class V>
+static std::string dots(const V& c) {
+  if (c.empty()) return "-";
+  std::string o;
+  for (size_t i = 0; i < c.size(); ++i) { if (i) o += "."; o += std::to_string(c[i]); }
+  return o;
+}
+
+static std::vector<std::string> split(const std::string& s, char sep) {
+  std::vector<std::string> out;
+  size_t b = 0;
+  for (;;) {
+    size_t e = s.find(sep, b);
+    if (e == std::string::npos) { out.push_back(s.substr(b)); break; }
+    out.push_back(s.substr(b, e - b));
+    b = e + 1;
+  }
+  return out;
+}
+
+static std::string show_sentence(const an<Sentence>& sen) {
+  if (!sen) return "none";
+  char buf[32];
+  snprintf(buf, sizeof buf, "%016llx", (unsigned long long)dbits(sen->weight()));
+  std::string o = std::string(buf) + "|" + hex(sen->text()) + "|" + dots(sen->code()) + "|" + dots(sen->word_lengths()) + "|";
+  size_t end = 0;
+  for (size_t i = 0; i < sen->components().size(); ++i) {
+    const DictEntry& e = sen->components()[i];
+    end += i < sen->word_lengths().size() ? sen->word_lengths()[i] : 0;
+    snprintf(buf, sizeof buf, "%016llx", (unsigned long long)dbits(e.weight));
+    if (i) o += ";";
+    o += std::to_string(end) + "/" + hex(e.text) + "/" + buf;
+  }
+  return o;
+}
+
+static int poet_mode(const char* jobfile) {
+  std::ifstream job(jobfile);
+  std::string line;
+  Poet cw(nullptr, nullptr, Poet::CompareWeight);
+  Poet la(nullptr, nullptr, Poet::LeftAssociateCompare);
+  while (std::getline(job, line)) {
+    std::istringstream ls(line);
+    std::string op; ls >> op;
+    size_t total = 0;
+    if (op != "poet" || !(ls >> total)) { printf("bad-op\n"); continue; }
+    WordGraph graph;
+    std::string tok;
+    bool ok = true;
+    while (ls >> tok) {
+      auto f = split(tok, ':');
+      if (f.size() != 3) { ok = false; break; }
+      int s = atoi(f[0].c_str()), e = atoi(f[1].c_str());
+      DictEntryList& lst = graph[s][e];
+      if (f[2] == "-") continue;
+      for (const auto& es : split(f[2], ';')) {
+        auto g = split(es, '/');
+        if (g.size() != 3) { ok = false; break; }
+        auto d = New<DictEntry>();
+        d->text = unhex(g[0]);
+        uint64_t bits = strtoull(g[1].c_str(), nullptr, 16);
+        memcpy(&d->weight, &bits, 8);
+        if (g[2] != "-") for (const auto& c : split(g[2], '.')) d->code.push_back(atoi(c.c_str()));
+        lst.push_back(d);
+      }
+    }
+    if (!ok) { printf("bad-op\n"); continue; }
+    auto a = cw.MakeSentence(graph, total, "");
+    auto b = la.MakeSentence(graph, total, "");
+    printf("poet cw %s la %s\n", show_sentence(a).c_str(), show_sentence(b).c_str());
+  }
+  fflush(stdout);
+  return 0;
+}
+
 int main(int argc, char** argv) {
+  if (argc >= 3 && std::string(argv[1]) == "--poet") return poet_mode(argv[2]);
   if (argc < 3) { fprintf(stderr, "usage: c07_harness <workdir> <jobfile>\n"); return 2; }
   std::string dir = argv[1];
   RimeApi* api = start(dir, dir, true);
@@ -101,7 +184,7 @@ int main(int argc, char** argv) {
   the<Dictionary> dict;
   RimeSessionId sess = 0;
   std::string kind, delims;
-  bool completion = false, strict = false, loaded = false;
+  bool completion = false, strict = false, loaded = false, word_completion = false;
   while (std::getline(job, line)) {
     std::istringstream ls(line);
     std::string op; ls >> op;
@@ -109,6 +192,9 @@ int main(int argc, char** argv) {
       std::string id, dh; int comp, st;
       ls >> id >> kind >> comp >> st >> dh;
       completion = comp; strict = st; delims = unhex(dh);
+      int wcv = comp;
+      if (ls >> wcv) {}
+      word_completion = wcv != 0;
       if (sess) api->destroy_session(sess);
       dict.reset(); schema.reset();
       schema.reset(new Schema(id));
@@ -139,8 +225,9 @@ int main(int argc, char** argv) {
               printf("gi %zu %d %zu %d %016llx\n", st.first, sy.first, p->end_pos, (int)p->type, (unsigned long long)dbits(p->credibility));
         if (kind == "script") {
           for (int predict = 0; predict <= 1; ++predict) {
-            // enable_word_completion defaults to enable_completion; predict_word also needs the graph to reach the end of input
-            bool would = completion && consumed == input.length();
+            // enable_word_completion (the job line says what the schema's options amount to; by default it is enable_completion);
+            // predict_word also needs the graph to reach the end of input
+            bool would = word_completion && consumed == input.length();
             if (predict && !would) continue;      // record predict=1 only where the translator uses it
             if (!predict && would) { /* also record the non-predictive lookup: extra coverage of match_extra_code */ }
             printf("lk %d\n", predict);
